@@ -1,12 +1,16 @@
 package checks
 
 import (
+	"bytes"
 	"context"
 	"encoding/json"
+	"errors"
 	"fmt"
 	"math"
 	"math/rand"
 	"net"
+	"net/http/httptest"
+	"net/url"
 	"reflect"
 	"sort"
 	"strings"
@@ -14,6 +18,7 @@ import (
 	"time"
 
 	"github.com/DataDog/datadog-traceroute/result"
+	"github.com/DataDog/datadog-traceroute/server"
 	"github.com/DataDog/datadog-traceroute/traceroute"
 
 	"verif/harness/drive"
@@ -388,6 +393,7 @@ func checkC16() fw.Check {
 					c.Nontrivial(fmt.Sprintf("large/%d", i))
 				}})
 			}
+			cases = append(cases, fw.Case{ID: "C16/served", Run: func(c *fw.Ctx) { runC16Served(c, c.ID) }})
 			// finished documents as RunTraceroute hands them out (simulated wire): every (runs, samples) shape a request can
 			// ask for, including samples only and runs only, reached / unreached destinations
 			for i, qe := range [][2]int{{0, 3}, {1, 0}, {2, 4}, {0, 1}, {3, 0}, {1, 1}, {0, 6}, {3, 3}} {
@@ -402,6 +408,47 @@ func checkC16() fw.Check {
 			}
 			return cases
 		},
+	}
+}
+
+// runC16Served: the document as the HTTP API serves it (no probing: 0 runs, 0 samples; the handler builds, finishes and
+// serialises the document) for targets whose text contains characters that mean something to a formatter or to JSON
+// (a zone-scoped address with '%', quotes, backslashes, angle brackets, non-ASCII): the body decodes, strictly, to a
+// document whose strings are the ones that were asked for, its identifier is fresh, and re-encoding it reproduces the body.
+func runC16Served(c *fw.Ctx, id string) {
+	resetProcessState()
+	srv := server.NewServer()
+	seen := map[string]bool{}
+	for _, target := range []string{"192.0.2.10", "2001:db8::10", "::ffff:192.0.2.10", "fe80::1%eth0", "fe80::2%vlan100", "fe80::3%25", "fe80::4%s%d%v"} {
+		for _, proto := range []string{"icmp", "udp"} {
+			q := url.Values{"target": {target}, "protocol": {proto}, "traceroute-queries": {"0"}, "e2e-queries": {"0"}}
+			rec := httptest.NewRecorder()
+			srv.TracerouteHandler(rec, httptest.NewRequest("GET", "/traceroute?"+q.Encode(), nil))
+			tag := fmt.Sprintf("%s target=%q protocol=%s", id, target, proto)
+			if rec.Code != 200 {
+				continue // whether such a target is accepted is C19's business
+			}
+			body := rec.Body.Bytes()
+			var doc result.Results
+			dec := json.NewDecoder(bytes.NewReader(body))
+			dec.DisallowUnknownFields()
+			if err := dec.Decode(&doc); err != nil {
+				c.Violate("C16", "served-json-decode", fmt.Sprintf("%s: the served document does not decode: %v", tag, err), map[string]any{"body": string(body)})
+				continue
+			}
+			if doc.Destination.Hostname != target || doc.Protocol != proto {
+				c.Violate("C16", "served-values-differ", fmt.Sprintf("%s: the served document decodes to destination.hostname %q, protocol %q", tag, doc.Destination.Hostname, doc.Protocol), map[string]any{"body": string(body)})
+			}
+			if doc.TestRunID == "" || seen[doc.TestRunID] {
+				c.Violate("C16", "served-id-not-fresh", fmt.Sprintf("%s: test_run_id %q is empty or was served before", tag, doc.TestRunID), nil)
+			}
+			seen[doc.TestRunID] = true
+			if again, err := json.Marshal(&doc); err != nil || !bytes.Equal(bytes.TrimSpace(body), again) {
+				c.Violate("C16", "served-json-unstable", fmt.Sprintf("%s: re-encoding the decoded document does not reproduce the served bytes (err=%v)", tag, err), map[string]any{"served": string(body), "reencoded": string(again)})
+			}
+			c.Count("served_documents_checked", 1)
+			c.Nontrivial("served/" + proto + "/" + target)
+		}
 	}
 }
 
@@ -422,8 +469,21 @@ func runC16Request(c *fw.Ctx, id, proto string, q, e2e int, reach bool) {
 		m := flowPath(k, e, 3, reach, time.Duration(1+k)*time.Millisecond)
 		return m
 	}
-	out, rerr := env.run(context.Background())
+	ctx := context.Background()
+	if proto != "icmp" && (q+e2e)%2 == 1 {
+		// the caller's context ends while runs are in flight (UDP and TCP runs never look at it and complete); the document
+		// is judged two virtual seconds after it was handed out: "finished" means nobody is still writing into it
+		cctx, cancel := context.WithTimeout(ctx, 25*time.Millisecond)
+		defer cancel()
+		ctx = cctx
+		c.Count("requests_with_ending_context", 1)
+	}
+	out, rerr := env.run(ctx)
+	time.Sleep(2 * time.Second)
 	if rerr != nil || out == nil {
+		if ctx != context.Background() && errors.Is(rerr, context.DeadlineExceeded) {
+			return // a request that honours the caller's deadline fails with it: nothing to judge here
+		}
 		c.Violate("C16", "request-failed", fmt.Sprintf("%s: fault-free request: result=%v err=%v", id, out != nil, rerr), nil)
 		return
 	}
